@@ -91,6 +91,11 @@ pub fn run(sc: &Value) -> Value {
                 }
             }
         }
+        "dual_binop_swapped" => {
+            // b is built first so that a can share b's variable list (Arc); result is a op b
+            if !two { let b = mk1(&sc["b"], None); let a = mk1(&sc["a"], if share { Some(&b) } else { None }); out1(&ops!(op, a, b, ra, rb)) }
+            else { let b = mk2(&sc["b"], None); let a = mk2(&sc["a"], if share { Some(&b) } else { None }); out2(&ops!(op, a, b, ra, rb)) }
+        }
         "dual_eq" => {
             if !two { let a = mk1(&sc["a"], None); let b = mk1(&sc["b"], if share { Some(&a) } else { None }); json!({"eq": a == b}) }
             else { let a = mk2(&sc["a"], None); let b = mk2(&sc["b"], if share { Some(&a) } else { None }); json!({"eq": a == b}) }
